@@ -169,12 +169,14 @@ def _region_thunks(rng, tmpdir):
     rate, width, channels = A.random_format(rng, small=True)
     n = rng.randint(4, 30)
     thunks = []
+    # the SAME silence durations, slice bounds and divisor in every thread (a cache keyed on them is then shared), different audio
+    a, b = rng.randint(-n - 2, n + 2), rng.randint(-n - 2, n + 2)
+    ds = [rng.choice((0.1, 3 / rate, 2.5 / rate, 7 / rate, 0.3)) for _ in range(5)]
+    d = ds[0]
     for i in range(rng.choice((2, 3))):
         r2 = random.Random(rng.getrandbits(32))
         data = A.random_pcm(r2, n, width, channels)
         other = A.random_pcm(r2, rng.randint(1, 9), width, channels)
-        a, b = rng.randint(-n - 2, n + 2), rng.randint(-n - 2, n + 2)
-        d = rng.choice((0.1, 3 / rate, 2.5 / rate))
 
         def th(data=data, other=other):
             r = auditok.AudioRegion(data, rate, width, channels)
@@ -183,6 +185,9 @@ def _region_thunks(rng, tmpdir):
             out = [bytes(r[a:b]), bytes(r.sec[a / rate : None]), bytes(r.ms[: abs(b) * 1000 // rate]), bytes(r + o), bytes(r * 2), [bytes(x) for x in r / 3],
                    bytes(sil.join([r, o, r])), len(sil), bytes(sil), r == o, r == auditok.AudioRegion(data, rate, width, channels), bytes(sum([o, r], r))]
             out.append(r.numpy().tolist())
+            for dd in ds:
+                z = auditok.make_silence(dd, rate, width, channels)
+                out.append((len(z), bytes(z) == bytes(len(z) * width * channels)))
             return out
 
         thunks.append(th)
@@ -215,8 +220,9 @@ def _formatter_thunks(rng, tmpdir):
     fmts = ["%S", "%I", "%h:%m:%s.%i", "%m:%s.%i", "%h-%m-%s-%i"]
     rng.shuffle(fmts)
     thunks = []
+    same = rng.random() < 0.6
     for i in range(rng.choice((2, 3))):
-        fmt = fmts[i]
+        fmt = fmts[0] if same else fmts[i]
         xs = [round(rng.uniform(0, 5000), rng.choice((0, 2, 3, 4))) for _ in range(12)]
 
         def th(fmt=fmt, xs=xs):
